@@ -440,9 +440,20 @@ def call_contract(ev, state, node, c, name, receiver=None):
             v = coerce(v, pty)
         pre_vals[p] = v
         refs[p] = ev.eval_ref(state, arg)
+    # volatile fields (e.g. Process.exitcode): what the callee observes is not what the
+    # caller last saw; only the environment assumptions of the callee constrain it
+    for p, fields in c.volatile.items():
+        if p in pre_vals:
+            pre_vals[p] = volatile_view(state, pre_vals[p], fields)
     for p, v in pre_vals.items():
         spec.ghost[p] = v
     old_ghost = dict(spec.ghost)
+    for text, expr in c.parsed('env_assumes'):
+        ctx.spec_mode += 1
+        try:
+            state.assume(truth(ev.eval(spec, expr)))
+        finally:
+            ctx.spec_mode -= 1
     # requires
     for text, expr in c.parsed('requires'):
         ctx.spec_mode += 1
@@ -512,6 +523,30 @@ def call_contract(ev, state, node, c, name, receiver=None):
     if c.returns_alias and refs.get(c.returns_alias) is not None:
         result = SymVal(result.ty, result.term, ('alias', refs[c.returns_alias]))
     return result
+
+
+def volatile_view(state, v, fields):
+    """a value equal to v except for the named (volatile) record fields of its elements"""
+    ty = v.ty
+    if ty[0] in ('list', 'arr') and ty[1][0] == 'rec':
+        r = fresh(ty, 'volatile')
+        i = z3.Int(fresh_name('vi'))
+        same = [T.acc(ty[1], f)(seq_at(r, i)) == T.acc(ty[1], f)(seq_at(v, i))
+                for f in T.RECORDS[ty[1][1]] if f not in fields]
+        state.assume(seq_len(r) == seq_len(v),
+                     z3.ForAll([i], z3.Implies(z3.And(0 <= i, i < seq_len(v)), z3.And(*same)))
+                     if same else z3.BoolVal(True))
+        return r
+    if ty[0] == 'dict' and ty[2][0] == 'rec':
+        r = fresh(ty, 'volatile')
+        k = z3.Const(fresh_name('vk'), T.sort_of(ty[1]))
+        same = [T.acc(ty[2], f)(dict_val(r)[k]) == T.acc(ty[2], f)(dict_val(v)[k])
+                for f in T.RECORDS[ty[2][1]] if f not in fields]
+        state.assume(dict_card(r) == dict_card(v),
+                     z3.ForAll([k], z3.And(dict_dom(r)[k] == dict_dom(v)[k],
+                                           z3.Implies(dict_dom(v)[k], z3.And(*same) if same else z3.BoolVal(True)))))
+        return r
+    raise Unsupported(f"volatile view of {T.show(ty)}")
 
 
 # ---- builtins ---------------------------------------------------------------------------------
@@ -876,6 +911,7 @@ spec_function('iinfo_max', native=_iinfo_native('max'))(_iinfo_spec('max'))
 _install_dtype_consts()
 
 QUALIFIED = {}
+OPAQUE_METHODS = {}   # method name -> handler(ev, state, node, recv) for abstracted receivers (pyvc/ext)
 
 
 def qualified(name):
@@ -929,6 +965,12 @@ def method_call(ev, state, node, name):
             return h(ev, state, node, recv, ref)
         raise Unsupported(f"method {cls}.{name} without contract")
     if k == 'opaque':
+        h = OPAQUE_METHODS.get(name)
+        if h is not None and not ctx.spec_mode:
+            # trusted contract of a library method on an abstracted receiver (e.g. h5py
+            # Group.create_dataset): the handler emits the pre-condition obligations
+            ctx.trusted_used.add(f"?.{name}")
+            return h(ev, state, node, recv)
         if not ctx.lenient:
             raise Unsupported(f"method .{name}() on abstracted value")
         return unknown_call(ev, state, node, f"?.{name}")
@@ -1064,6 +1106,11 @@ def method_call(ev, state, node, name):
     if k in ('arr', 'arr2'):
         from . import numpy_prims
         r = numpy_prims.method(ev, state, node, recv, ref, name)
+        if r is not None:
+            return r
+    if k in ('int', 'real'):
+        from . import numpy_prims
+        r = numpy_prims.scalar_method(ev, state, node, recv, name)
         if r is not None:
             return r
     if k == 'name':
